@@ -60,8 +60,8 @@ STALE = [
 # generation
 # ---------------------------------------------------------------------------
 
-def gen_op(rng, n_query, allow_nested=True):
-    stage = rng.choice(OPS)
+def gen_op(rng, n_query, allow_nested=True, force_stage=None):
+    stage = force_stage or rng.choice(OPS)
     op = {'stage': stage, 'tag': rng.choice(['A', 'B', 'C']), 'sched': common.draw_sched(rng),
           'orphans': rng.choice(['kill', 'drain']), 'n_processors': rng.randint(1, 4),
           'cleanup_yields': rng.choice([0, 0, 0.5, 1.0])}
@@ -111,7 +111,11 @@ def gen_op(rng, n_query, allow_nested=True):
     op['stale'] = sorted(rng.sample(range(len(STALE)), n_stale))
     op['stale_output'] = rng.random() < 0.12
     if allow_nested and rng.random() < 0.25:
-        op['nested'] = {'at': rng.randint(1, 14), 'op': gen_op(rng, n_query, allow_nested=False)}
+        # half of the concurrent pairs are two runs of the SAME stage on the same inputs (where name clashes in the
+        # shared scratch directory would show), the other half any pair of stages
+        op['nested'] = {'at': rng.randint(1, 14),
+                        'op': gen_op(rng, n_query, allow_nested=False,
+                                     force_stage=stage if rng.random() < 0.5 else None)}
         if op['nested']['op']['tag'] == op['tag'] and op['nested']['op']['stage'] == stage:
             op['nested']['op']['tag'] = op['tag'] + 'n'
     op['clock_jump'] = rng.choice([0.0, 0.0, -86400.0, 1.0e6])
